@@ -11,7 +11,7 @@ CONFIGS_QUICK = [("W4a", 500), ("W4b", 400), ("W4c", 400), ("U6", 400), ("H4", 3
 CONFIGS_THOROUGH = [("W4a", 900), ("W4b", 900), ("W4c", 900), ("U6", 900), ("U6a", 900), ("W5b", 900), ("H4", 600), ("H6", 600)]
 
 
-def run_random(prop, seed, tier, suffix=True):
+def run_random(prop, seed, tier, suffix=True, suffix_mode=1, tag=""):
     """Runs the random driver for every config; returns list of dict(config, seed, steps, trace, report)."""
     common.cargo_build()
     d = common.outdir(prop, "traces")
@@ -21,12 +21,12 @@ def run_random(prop, seed, tier, suffix=True):
     for (cfg, steps) in cfgs:
         for k in range(nseeds):
             s = seed * 1000 + k
-            trace = os.path.join(d, f"{cfg}_{s}.ndjson")
-            rep = os.path.join(d, f"{cfg}_{s}.json")
-            rc, so, se = common.run_bin("bft_drive", ["random", trace, rep, s, steps, cfg, "1" if suffix else "0"], timeout=900)
+            trace = os.path.join(d, f"{cfg}_{s}{tag}.ndjson")
+            rep = os.path.join(d, f"{cfg}_{s}{tag}.json")
+            rc, so, se = common.run_bin("bft_drive", ["random", trace, rep, s, steps, cfg, str(suffix_mode) if suffix else "0"], timeout=900)
             if rc != 0 and not os.path.exists(rep):
                 raise common.ToolError(f"bft_drive failed rc={rc} cfg={cfg} seed={s}: {se[-800:]}")
-            runs.append({"config": cfg, "seed": s, "steps": steps, "trace": trace, "report": common.load_report(rep)})
+            runs.append({"config": cfg, "seed": s, "steps": steps, "trace": trace, "report": common.load_report(rep), "suffix": suffix_mode if suffix else 0})
     return runs
 
 
@@ -79,9 +79,14 @@ def validate_runs(prop, runs, cfg_name, want_props):
             raise common.ToolError(f"trace validation failed without a finding for {prop}: {v['violated']}\n{v['out_tail']}")
         keep = os.path.join(common.outdir(prop, "replay"), os.path.basename(run["trace"]))
         os.replace(run["trace"], keep)
+        if run.get("io"):
+            kb = os.path.join(common.outdir(prop, "replay"), "io_behaviours.ndjson")
+            os.replace(os.path.join(os.path.dirname(run["trace"]), "io_behaviours.ndjson"), kb)
+            path = common.write_replay(prop, "trace_violation", {"property": prop, "mode": "io", "behaviours": kb, "what": hit, "trace": keep, "cfg": cfg_name})
+            raise common.Violation(prop, hit, path)
         path = common.write_replay(prop, "trace_violation", {"property": prop, "mode": "scenario" if run.get("scenario") else "random",
                                                              "scenario": run.get("scenario"), "config": run["config"],
-                                                             "seed": run["seed"], "steps": run["steps"], "what": hit,
+                                                             "seed": run["seed"], "steps": run["steps"], "suffix": run.get("suffix", 1), "what": hit,
                                                              "trace": keep, "cfg": cfg_name})
         raise common.Violation(prop, hit, path)
     return len(runs), n_events
@@ -131,10 +136,18 @@ def replay_random(prop, path, cfg_name, want_props):
     d = common.outdir(prop, "replay")
     trace = os.path.join(d, "replay.ndjson")
     rep = os.path.join(d, "replay_report.json")
+    if c.get("mode") == "io":
+        common.run_bin("bft_drive", ["io", c["behaviours"], trace, rep], timeout=3000)
+        run = {"config": "replica_io", "seed": 0, "steps": 0, "trace": trace, "report": common.load_report(rep), "io": True}
+        import shutil
+        shutil.copy(c["behaviours"], os.path.join(d, "io_behaviours.ndjson"))
+        validate_runs(prop, [run], cfg_name, want_props)
+        log("replay: no violation reproduced")
+        return 0
     if c.get("mode") == "scenario":
         common.run_bin("bft_drive", ["replay", c["scenario"], trace, rep], timeout=900)
     else:
-        common.run_bin("bft_drive", ["random", trace, rep, c["seed"], c["steps"], c["config"], "1"], timeout=900)
+        common.run_bin("bft_drive", ["random", trace, rep, c["seed"], c["steps"], c["config"], str(c.get("suffix", 1))], timeout=900)
     run = {"config": c["config"], "seed": c.get("seed", 0), "steps": c.get("steps", 0), "trace": trace, "report": common.load_report(rep),
            "scenario": c.get("scenario")}
     driver_failures(prop, [run], {"panic", "no_progress"} if prop == "C06" else {"panic"})
@@ -161,8 +174,26 @@ def run_scenarios(prop):
     return runs
 
 
+def run_io(prop, tier, seed):
+    """T2 for the single replica: behaviours of ReplicaIO.tla replayed on a real StateMachine (all peers played by the harness)."""
+    import iogen
+    common.cargo_build()
+    d = common.outdir(prop, "traces")
+    n = 150 if tier == "quick" else 1500
+    behs, gen = iogen.behaviours(n, seed, timeout=300 if tier == "quick" else 2400)
+    bp = os.path.join(d, "io_behaviours.ndjson")
+    common.write_ndjson(bp, behs)
+    trace = os.path.join(d, "io_trace.ndjson")
+    rep = os.path.join(d, "io_report.json")
+    rc, so, se = common.run_bin("bft_drive", ["io", bp, trace, rep], timeout=3000)
+    if rc != 0 and not os.path.exists(rep):
+        raise common.ToolError(f"bft_drive io failed: {se[-800:]}")
+    r = common.load_report(rep)
+    return {"config": "replica_io", "seed": seed, "steps": 0, "trace": trace, "report": r, "io": True, "behaviours": len(behs), "spec_states": gen}
+
+
 def run_property(prop, tier, seed, model_cfgs_quick, model_cfgs_thorough, trace_cfg, want_props, driver_keys,
-                 rule, assumptions, suffix=True, model_timeout_quick=200, model_timeout_thorough=3000, extra=None):
+                 rule, assumptions, suffix=True, model_timeout_quick=200, model_timeout_thorough=3000, extra=None, with_io=False):
     """Generic BFT property check: TLC on the system model + random driver traces validated by TLC."""
     t0 = time.time()
     cfgs = model_cfgs_quick if tier == "quick" else model_cfgs_thorough
@@ -176,6 +207,8 @@ def run_property(prop, tier, seed, model_cfgs_quick, model_cfgs_thorough, trace_
             log(f"NOTE drift component=bft scenario={sr['config']}: {c.get('skipped',0)} step(s) of a faithful-spec behaviour could not be "
                 f"materialised / {c.get('outcome_differs',0)} outcome(s) differ (conformance itself is decided by trace validation)")
     runs = runs + scn_runs
+    if with_io:
+        runs.append(run_io(prop, tier, seed))
     cnt = counters(runs)
     viol = 0
     try:
